@@ -187,7 +187,7 @@ def gen_cases(tier, seed):
             {
                 "kind": "contour",
                 "shape": kinds[i % len(kinds)],
-                "steps": str(rng.choice(["none", "int", "list-inside", "list-mixed"])),
+                "steps": str(rng.choice(["none", "int", "list-inside", "list-mixed", "int-list", "int-array", "range", "tuple"])),
                 "swap": bool(rng.integers(2)),
                 "negative": bool(rng.random() < 0.35),
                 "sub": int(rng.integers(1 << 31)),
@@ -296,6 +296,27 @@ def run_case(case, ctx):
         steps = int(rng.integers(2, 25))
     elif case["steps"] == "list-inside":
         steps = general(np.sort(rng.uniform(lo + 0.02 * rngx, hi - 0.02 * rngx, int(rng.integers(1, 12)))))
+    elif case["steps"] in ("int-list", "int-array", "range"):
+        # all-integer abscissae (int list, int ndarray, range object): scale the polygon so that several integers fall inside
+        if rngx < 6:
+            f = 8.0 / max(rngx, 1e-9)
+            P = P.copy()
+            P[:, xi] = (P[:, xi] - lo) * f + math.floor(lo)
+            lo, hi = float(P[:, xi].min()), float(P[:, xi].max())
+            rngx = hi - lo
+        ints = [k for k in range(int(math.floor(lo)) - 1, int(math.ceil(hi)) + 2) if np.min(np.abs(P[:, xi] - k)) > 2e-6 * rngx]
+        if not ints:
+            ints = [int(round((lo + hi) / 2))]
+        if case["steps"] == "int-list":
+            steps = [int(k) for k in ints]
+        elif case["steps"] == "int-array":
+            steps = np.array(ints, dtype=np.int64)
+        else:
+            steps = range(ints[0], ints[-1] + 1)
+            if any(np.min(np.abs(P[:, xi] - k)) <= 2e-6 * rngx for k in steps):
+                steps = [int(k) for k in ints]
+    elif case["steps"] == "tuple":
+        steps = tuple(general(np.sort(rng.uniform(lo + 0.02 * rngx, hi - 0.02 * rngx, int(rng.integers(1, 12))))))
     else:
         steps = general(rng.uniform(lo - 0.3 * rngx, hi + 0.3 * rngx, int(rng.integers(1, 12))))
     ctx.sig = f"contour|{case['sub']}|{case['steps']}|{case['swap']}"
@@ -305,7 +326,7 @@ def run_case(case, ctx):
     except AssertionError:
         res = None  # judged by the monitor
     ctx.nontrivial = res is not None and len(res) > 0
-    ctx.sample = {"shape": case["shape"], "n_vertices": int(len(P)), "steps": steps if not isinstance(steps, list) else steps[:6], "swap_axis": case["swap"], "y_range": [float(P[:, 1].min()), float(P[:, 1].max())], "n_design_conditions": None if res is None else int(len(res))}
+    ctx.sample = {"shape": case["shape"], "n_vertices": int(len(P)), "steps": (list(steps)[:6] if hasattr(steps, "__iter__") else steps), "swap_axis": case["swap"], "y_range": [float(P[:, 1].min()), float(P[:, 1].max())], "n_design_conditions": None if res is None else int(len(res))}
     # swap_axis is equivalent to exchanging the two coordinates
     if res is not None:
         try:
